@@ -47,11 +47,13 @@ public:
 
   trompeloeil::lifetime_monitor*&
   trompeloeil_expect_death(
-    trompeloeil::lifetime_monitor* monitor)
+    trompeloeil::lifetime_monitor* monitor,
+    trompeloeil::lifetime_monitor*& older_monitor)
   const
   noexcept
   {
     auto lock = get_lock();
+    older_monitor = trompeloeil_lifetime_monitor.leak();
     trompeloeil_lifetime_monitor = monitor;
     return trompeloeil_lifetime_monitor.leak();
   }
@@ -69,7 +71,7 @@ struct lifetime_monitor : public expectation
     char const* call_name_,
     location loc_)
   noexcept
-    : object_monitor(obj.trompeloeil_expect_death(this))
+    : object_monitor(obj.trompeloeil_expect_death(this, older_monitor))
       , loc(loc_)
       , object_name(obj_name_)
       , invocation_name(invocation_name_)
@@ -97,7 +99,13 @@ struct lifetime_monitor : public expectation
       std::ostringstream os;
       os << "Object " << object_name << " is still alive";
       send_report<specialized>(severity::nonfatal, loc, os.str());
-      object_monitor = nullptr; // prevent its death poking this cadaver
+      // prevent its death poking this cadaver
+      auto link = &object_monitor;
+      while (*link != this)
+      {
+        link = &(*link)->older_monitor;
+      }
+      *link = older_monitor;
     }
   }
 
@@ -116,6 +124,10 @@ struct lifetime_monitor : public expectation
       sequences->retire_predecessors();
     }
     sequences->retire();
+    if (older_monitor)
+    {
+      older_monitor->notify();
+    }
   }
 
   template <typename ... T>
@@ -132,6 +144,7 @@ struct lifetime_monitor : public expectation
   }
 private:
   atomic<bool>       died{false};
+  lifetime_monitor  *older_monitor = nullptr;
   lifetime_monitor *&object_monitor;
   location           loc;
   char const        *object_name;
